@@ -61,6 +61,8 @@ THEOREMS = [
     "OllamaVerif.C19.inplace_renders_all",
     "OllamaVerif.C19.prompt_contains_system_and_retained_inplace",
     "OllamaVerif.C19.handler_limit_is_request",
+    "OllamaVerif.C19.final_prompt_fits",
+    "OllamaVerif.C19.templ_ok_exact",
     "OllamaVerif.C19.requestNumCtx_precedence",
     "OllamaVerif.C19.handler_runner_opts_would_overflow",
     "OllamaVerif.Tie.C19.legacy_tree_is_parsed",
@@ -147,7 +149,7 @@ def run(ctx):
              "(system-header messages style, legacy, default, in-place messages style; also rendered by the oracle) "
              ", 6 templates shipped in /repo/template and randomly generated templates of both styles (if/else, "
              "eq/ne/and/or/not, $.System, range forms, trim markers, missing keys, exec errors) x 2 tokenizers (+ injected "
-             "tokenizer failure) x {plain, projector, mllama} x context lengths aimed at every measured total +-1; "
+             "tokenizer failure) x 0-3 request tools of varying size (harness/generated/shipped templates rendering .Tools) x {plain, projector, mllama} x context lengths aimed at every measured total +-1; "
              "plus 400/4000 POST /api/chat requests (real Scheduler load path, OLLAMA_NUM_PARALLEL 1/2/4/unset, num_ctx from request / model PARAMETER / default, sized around num_ctx and num_ctx x parallel) against freshly created models and 5500/70000 runner-side "
              "(prompt, images) pairs; distinct = distinct oracle command lines",
         explanation="Lean theorems about the model of chatPrompt for all conversations/limits/cost functions; model "
